@@ -35,6 +35,9 @@ enum {
   OP_EXPAND,         /* a = live index, b = 0: to usable, 1: usable+1 */
   OP_FREE_SIZE,      /* a = live index : mi_free_size / mi_free_aligned variants by parity */
   OP_FREE_EVERY,     /* a = stride k, b = phase: free every k-th live block (hole patterns) */
+  OP_DFREE,          /* a = index into the list of released blocks: free it a second time (hardened builds) */
+  OP_OVER,           /* a = live index: write one foreign byte just past the requested size, then free the block */
+  OP_LINK,           /* a = index into the list of released blocks: overwrite its free-list link with a forged value */
   OP_LAST
 };
 
@@ -64,6 +67,9 @@ static void vf_op_str(vf_op_t op, char* buf, size_t n) {
     case OP_EXPAND:       snprintf(buf, n, "expand(#%ld,usable+%ld)", op.a, op.b); break;
     case OP_FREE_SIZE:    snprintf(buf, n, "free_size(#%ld)", op.a); break;
     case OP_FREE_EVERY:   snprintf(buf, n, "free_every(%ld,%ld)", op.a, op.b); break;
+    case OP_DFREE:        snprintf(buf, n, "double_free(released#%ld)", op.a); break;
+    case OP_OVER:         snprintf(buf, n, "overflow_then_free(#%ld)", op.a); break;
+    case OP_LINK:         snprintf(buf, n, "forge_link(released#%ld,%ld)", op.a, op.b); break;
     default:              snprintf(buf, n, "op%d(%ld,%ld)", op.code, op.a, op.b); break;
   }
 }
@@ -76,6 +82,10 @@ static int        g_dirty = 0;         /* C04 discipline: fill a block with 0xFF
 static int        g_obs_walk = 0, g_obs_owner = 0, g_obs_released = 0, g_obs_abandoned = 0;
 static int        g_check_errors = 1;  /* secondary oracle: unexpected mi error callback */
 static int        g_threads_used = 0;
+#define NREL 6
+static struct { uint8_t* p; size_t req, usable; int linked; } g_rel[NREL]; static int g_nrel;   /* recently released blocks (fault targets) */
+static int        g_pending_links = 0;      /* forged links not yet reached by the allocator */
+static int        g_faulted = 0;            /* debug builds: stop the branch after the first reported fault */
 static int        g_pending[NHEAPS + 1];    /* heap slot has (possibly) pending cross-thread frees: C12 claims nothing about extra reports then */
 #define PENDING(h) g_pending[(h) < 0 ? NHEAPS : (h)]
 
@@ -92,6 +102,7 @@ typedef struct profile_s {
   long hsizes[3];  int nh;
   long ticks[2];   int nt;
   long callocs[3][2]; int nc;
+  int  faults;                         /* hardened builds: double free / overflow / forged link operations */
   int  fillcount, free_every;          /* blocks per fill (default 8); enable free_every(k,phase) ops */
   int  maxlive;                        /* allocation ops disabled above this many live blocks */
   int  free_window;                    /* free(i) enumerated for all i if nlive <= window, else first/last window/2 */
@@ -126,6 +137,8 @@ static const profile_t profiles[] = {
   { .name = "P6x", .msizes = { 1024 }, .nm = 1, .fills = { 1024, 512 }, .nf = 2, .fillcount = 64, .free_every = 1, .walk = 1, .collect0 = 1, .maxlive = 200, .free_window = 2 },
   /* P7t: threads: remote free + abandoned segments + reclaim */
   { .name = "P7t", .msizes = { 8 * KiB, 100 * KiB }, .nm = 2, .remote_free = 1, .thread_alloc = 1, .collect0 = 1, .collect1 = 1, .maxlive = 6, .free_window = 4 },
+  /* P9s: hardened builds (C17): a full page of 8 blocks, frees, and the three fault operations at every position */
+  { .name = "P9s", .msizes = { 8000, 100 }, .nm = 2, .fills = { 8000 }, .nf = 1, .faults = 1, .maxlive = 12, .free_window = 4 },
   /* P8o: option sweep profile (C13): merged alphabet incl. clock ticks */
   { .name = "P8o", .msizes = { 8 * KiB, 64 * KiB, 1 * MiB, 17 * MiB }, .nm = 4, .zsizes = { 8 * KiB }, .nz = 1, .rsizes = { 100 * KiB }, .nr = 1,
     .collect0 = 1, .collect1 = 1, .ticks = { 1000 }, .nt = 1, .maxlive = 5, .free_window = 5 },
@@ -281,7 +294,18 @@ static void purge_monitor(int kind, int arg, uintptr_t addr, size_t len) {
 /* ---------------- node oracle ------------------------------------------------------------------ */
 static int vf_check_node(void) {
   if (vf_model_check_all("node") != 0) return -1;
+  if (g_pending_links > 0 && vf_err_count > 0 && vf_err_last == EFAULT) {
+    /* the allocator reached a forged link and reported it instead of following it */
+    VF_INC(counters[7]); g_pending_links -= 1; vf_err_count = 0;
+#if MI_DEBUG
+    g_faulted = 1;
+#endif
+  }
   if (g_check_errors && vf_err_count > 0) { vf_violation("error-callback", "mimalloc reported error %d although the history is legal", vf_err_last); return -1; }
+  if (g_prof->faults) {
+    /* no address outside the heap's areas is ever handed out */
+    for (int i = 0; i < vf_nlive; i++) if (!mi_is_in_heap_region(vf_live[i].p)) { vf_violation("outside-heap", "block #%d %p lies outside the heap's areas", i, vf_live[i].p); return -1; }
+  }
   return run_observers();
 }
 
@@ -326,12 +350,60 @@ static int vf_apply(vf_op_t op) {
       vf_blk_t b = vf_live[i];
       dirty_block(&b);
       vf_model_remove_ordered(i);
+      if (g_prof->faults) { if (g_nrel == NREL) { memmove(&g_rel[0], &g_rel[1], sizeof(g_rel[0]) * (NREL - 1)); g_nrel--; } g_rel[g_nrel].p = b.p; g_rel[g_nrel].req = b.req; g_rel[g_nrel].usable = b.usable; g_rel[g_nrel].linked = 0; g_nrel++; }
       if (op.code == OP_REMOTE_FREE) { targ_t t = { 0, b.p, 0, { 0, 0 } }; run_helper(&t); PENDING(b.heap) = 1; if (b.heap < 0) for (int h = 0; h < NHEAPS; h++) g_pending[h] = 1; }
       else if (op.code == OP_FREE_SIZE) {
         if (b.align) mi_free_size_aligned(b.p, b.req, b.align); else mi_free_size(b.p, b.req);
       }
       else if (b.align && (i & 1)) mi_free_aligned(b.p, b.align);
       else mi_free(b.p);
+      return 0;
+    }
+    case OP_DFREE: {
+      int k = (int)op.a; if (k < 0 || k >= g_nrel) return 0;
+      uint64_t fp0 = vf_fingerprint();
+      vf_err_count = 0;
+      mi_free(g_rel[k].p);                     /* the second free of a block that is still free */
+      VF_INC(checks); VF_INC(nontrivial);
+      if (vf_err_count != 1 || vf_err_last != EAGAIN) { vf_violation("double-free-unreported", "second free of %p (size %zu; its page still holds a live block) raised %d error reports (last code %d), expected exactly one EAGAIN", g_rel[k].p, g_rel[k].req, vf_err_count, vf_err_last); return 1; }
+      vf_err_count = 0;
+      if (vf_fingerprint() != fp0) { vf_violation("double-free-not-ignored", "the reported second free of %p still changed the allocator state", g_rel[k].p); return 1; }
+#if MI_DEBUG
+      g_faulted = 1;
+#endif
+      return 0;
+    }
+    case OP_OVER: {
+      int i = (int)op.a; if (i < 0 || i >= vf_nlive) return 0;
+      if (vf_model_check_one(i, "before overflow") != 0) return 1;
+      vf_blk_t b = vf_live[i];
+      b.p[b.req] = 0x41;                        /* one foreign byte just past the requested size (padding area) */
+      vf_model_remove_ordered(i);
+      vf_err_count = 0;
+      mi_free(b.p);
+      VF_INC(checks); VF_INC(nontrivial);
+      if (vf_err_count < 1 || vf_err_last != EFAULT) { vf_violation("overflow-unreported", "a byte written just past the requested size (%zu) of %p was not reported when the block was freed (%d reports, last code %d), expected EFAULT", b.req, b.p, vf_err_count, vf_err_last); return 1; }
+      vf_err_count = 0;
+      if (g_nrel == NREL) { memmove(&g_rel[0], &g_rel[1], sizeof(g_rel[0]) * (NREL - 1)); g_nrel--; }
+      g_rel[g_nrel].p = b.p; g_rel[g_nrel].req = b.req; g_rel[g_nrel].usable = b.usable; g_rel[g_nrel].linked = 0; g_nrel++;
+#if MI_DEBUG
+      g_faulted = 1;
+#endif
+      return 0;
+    }
+    case OP_LINK: {
+      int k = (int)op.a; if (k < 0 || k >= g_nrel || g_rel[k].linked) return 0;
+      mi_page_t* page = _mi_ptr_page(g_rel[k].p);
+      /* forged target: b=0 an address in another segment-sized region, b=1 the address of a live block of another page */
+      void* target = (op.b == 0 ? (void*)((uintptr_t)g_rel[k].p + 3 * MI_SEGMENT_SIZE + 64) : NULL);
+      if (op.b == 1) { for (int i = 0; i < vf_nlive; i++) if (_mi_ptr_page(vf_live[i].p) != page) { target = vf_live[i].p; break; } if (!target) return 0; }
+#if (MI_ENCODE_FREELIST)
+      ((mi_block_t*)g_rel[k].p)->next = mi_ptr_encode(page, target, page->keys);
+#else
+      return 0;
+#endif
+      g_rel[k].linked = 1; g_pending_links++;
+      VF_INC(nontrivial);
       return 0;
     }
     case OP_FREE_EVERY: {
@@ -490,6 +562,18 @@ static int vf_list_ops(vf_op_t* out, int max) {
       for (int r = 0; r < P->nrz; r++) if ((size_t)P->rzsizes[r] > b->req) { PUSH(OP_REZALLOC, idx[k], P->rzsizes[r]); if (P->recalloc) PUSH(OP_RECALLOC, idx[k], P->rzsizes[r]); break; }
       for (int r = P->nrz - 1; r >= 0; r--) if ((size_t)P->rzsizes[r] > b->req) { if (r > 0 && (size_t)P->rzsizes[r - 1] > b->req) PUSH(OP_REZALLOC, idx[k], P->rzsizes[r]); break; }
     }
+  }
+  if (P->faults) {
+    if (g_faulted) return 0;      /* debug builds: internal assertions after a detected error are outside the claim: the branch ends here */
+    for (int k = 0; k < g_nrel; k++) {
+      /* the released block must not be live again, and for the double free its page must still hold another live block */
+      int relive = 0, page_live = 0;
+      for (int i = 0; i < vf_nlive; i++) { if (vf_live[i].p == g_rel[k].p) relive = 1; else if (_mi_ptr_page(vf_live[i].p) == _mi_ptr_page(g_rel[k].p)) page_live = 1; }
+      if (relive || !page_live) continue;
+      if (!g_rel[k].linked && g_pending_links == 0) PUSH(OP_DFREE, k, 0);
+      if (!g_rel[k].linked) { PUSH(OP_LINK, k, 0); PUSH(OP_LINK, k, 1); }
+    }
+    for (int k = 0; k < ni; k++) { const vf_blk_t* b = &vf_live[idx[k]]; if (b->req < mi_page_usable_block_size(_mi_ptr_page(b->p))) PUSH(OP_OVER, idx[k], 0); }
   }
   if (P->collect0) PUSH(OP_COLLECT, 0, 0);
   if (P->collect1) PUSH(OP_COLLECT, 1, 0);
